@@ -33,6 +33,13 @@ let hop_of = function
   | ["u"; p] -> HUnreg (n_of_tok p)
   | ["h"] -> HHold
   | ["f"] -> HFlush
+  | "z" :: p :: n :: rest ->
+    let rec reqs k l = if k = 0 then [] else (match l with
+        | p :: sid :: a :: b :: num :: size :: chunks :: r ->
+          { r_peer = n_of_tok p; r_sid = n_of_tok sid; r_start = n_of_tok a; r_stop = n_of_tok b;
+            r_num = n_of_tok num; r_size = n_of_tok size; r_chunks = n_of_tok chunks; r_serial = nz 0 } :: reqs (k - 1) r
+        | _ -> failwith "short race op") in
+    HRace (n_of_tok p, reqs (int_of_string n) rest, nat_of_int 0)
   | _ -> failwith "bad op"
 
 (* the harness' well-formedness rule: at most 6 requests per hold period *)
@@ -40,17 +47,32 @@ let well_formed hops =
   let rec go held n = function
     | [] -> true
     | HHold :: r -> if held then go held n r else go true 0 r
-    | HFlush :: r -> go false 0 r
+    | (HFlush | HRace _) :: r -> go false 0 r
     | HUnreg _ :: r -> go held n r
     | HReq _ :: r -> if held then (n < 6 && go held (n + 1) r) else go held n r
   in go false 0 hops
 
 (* serial numbering of the harness: 0 = sentinel session; request k gets s, its sentinel s+1 *)
-let sops_of hops =
+let sops_of maxchunks hops =
   let rec go s = function
     | [] -> []
     | HReq rq :: r -> SReq { rq with r_serial = nz s } :: go (s + 2) r
     | HUnreg p :: r -> SUnreg p :: go s r
+    | HRace (p, reqs, pos) :: r ->
+      (* blocker = s; i-th request = s+1+2i, its sentinel s+2+2i; last sentinel s+1+2n.  The
+         unregistration was processed after [pos] entries of the request channel, where requests
+         refused with ErrTooManyChunks never entered the channel *)
+      let n = List.length reqs in
+      let tagged = List.mapi (fun i rq -> { rq with r_serial = nz (s + 1 + 2 * i) }) reqs in
+      let pos = int_of_nat pos in
+      let rec ins entries taken = function
+        | [] -> [SUnreg p]
+        | rq :: more ->
+          if taken >= pos then SUnreg p :: List.map (fun x -> SReq x) (rq :: more)
+          else
+            let used = if zi rq.r_chunks > maxchunks then 0 else 2 in   (* the request and its sentinel *)
+            SReq rq :: ins entries (taken + used) more in
+      ignore n; ins () 0 tagged @ go (s + 2 * n + 2) r
     | _ :: r -> go s r
   in go 1 hops
 
@@ -71,7 +93,7 @@ let obs_of_model cfg db hops obs =
       here @ qtoks hr qr
     | _ :: hr, _ :: qr -> qtoks hr qr
     | _, _ -> [] in
-  let real p = zi p <> 0 in
+  let real p = zi p <> 0 && zi p <> 999999 in
   let xs = List.sort compare (List.filter_map (function ETooMany (p, s) when real p -> Some (zi s) | _ -> None) trace) in
   let ms = List.sort compare (List.filter_map (function EMisb (p, s) when real p -> Some (zi s) | _ -> None) trace) in
   let sent = List.filter_map (function ESent r when real r.rs_peer -> Some r | _ -> None) trace in
@@ -109,7 +131,7 @@ let parse_obs db obs =
 let spec_on cfg db hops obs =
   try
     let (xs, ms, incs, pend) = parse_obs db obs in
-    seeder_spec_ok cfg db (sops_of hops) xs ms incs pend
+    seeder_spec_ok cfg db (sops_of (zi cfg.c_maxchunks) hops) xs ms incs pend
   with _ -> false
 
 let eval inp obs =
@@ -118,12 +140,29 @@ let eval inp obs =
   let hops = List.map hop_of ops in
   if not (well_formed hops) then { default_verdict with model_obs = ["BAD"]; nontrivial = false }
   else begin
-    let mo = obs_of_model cfg db hops obs in
+    (* races: enumerate how many entries of the request channel select took before the
+       unregistration; the first assignment whose model observation equals the implementation's
+       is the schedule that happened *)
+    let rec assignments = function
+      | [] -> [[]]
+      | HRace (p, reqs, _) :: r ->
+        let tails = assignments r in
+        let m = 2 * List.length reqs + 1 in
+        List.concat (List.init (m + 1) (fun pos -> List.map (fun t -> HRace (p, reqs, nat_of_int pos) :: t) tails))
+      | h :: r -> List.map (fun t -> h :: t) (assignments r) in
+    let cands = assignments hops in
+    let cands = if List.length cands > 200 then [hops] else cands in
+    let matching = List.filter (fun hs -> obs_of_model cfg db hs obs = obs) cands in
+    let chosen = (match matching with hs :: _ -> hs | [] -> hops) in
+    if Sys.getenv_opt "C17_RACE_STATS" <> None then
+      List.iter (function HRace (_, reqs, pos) -> Printf.eprintf "RACE n=%d pos=%d matches=%d\n" (List.length reqs) (int_of_nat pos) (List.length matching) | _ -> ()) chosen;
+    let mo = obs_of_model cfg db chosen obs in
     let (_, _, incs, _) = (try parse_obs db mo with _ -> ([], [], [], [])) in
     let resumed = List.exists (fun (_, rs) ->
         List.length (List.sort_uniq compare (List.map (fun x -> zi x.o_tag) rs)) > 1) incs in
-    { default_verdict with model_obs = mo; spec_ok = Some (spec_on cfg db hops obs);
-      model_spec_ok = spec_on cfg db hops mo; nontrivial = resumed }
+    let spec = List.exists (fun hs -> spec_on cfg db hs obs) (if matching <> [] then matching else cands) in
+    { default_verdict with model_obs = mo; spec_ok = Some spec;
+      model_spec_ok = spec_on cfg db chosen mo; nontrivial = resumed }
   end
 
 let () = run eval
